@@ -234,11 +234,23 @@ func genC12(c *kernel.RunCtx) *c12Scenario {
 		s.resps = append(s.resps, r)
 		c.End()
 	}
+	if c.Bool(1, 40) && !many {
+		// a patient caller: the supplier has nothing (or only dust) for dozens of rounds in a row, then delivers
+		c.Begin("patient")
+		var wait []c12Resp
+		for i, n := 0, c.Range(31, 70); i < n; i++ {
+			wait = append(wait, c12Resp{kind: []int{5, 5, 5, 3}[c.Choose(4)], n: 1})
+		}
+		s.resps = append(wait, s.resps...)
+		s.resps = append(s.resps, c12Resp{kind: 0, n: 1})
+		c.End()
+		c.Count("probe.dozens_of_empty_batches_then_funds", 1)
+	}
 	c.End()
 	c.Begin("second-fund")
 	s.refund = c.Bool(1, 3) && !s.huge
 	s.editKind, s.editIdx = c.Choose(5), c.Choose(1000)
-	s.requote = c.Pick(2, 1, 1)
+	s.requote = c.Pick(4, 2, 2, 1)
 	s.stdSat2, s.stdBytes2, s.dataSat2, s.dataBytes2 = c.Range(0, 2000), c.Range(1, 1000), c.Range(0, 2000), c.Range(1, 1000)
 	for i, n := 0, 1+c.Choose(3); i < n; i++ {
 		s.resps2 = append(s.resps2, c12Resp{kind: c.Pick(4, 4, 2, 1, 3), n: 1 + c.Choose(3), aux: c.U64n(1 << 16)})
@@ -496,7 +508,15 @@ func (w *c12World) one(c *kernel.RunCtx, s *c12Scenario, resps []c12Resp, fname 
 		_ = cp.PreviousTxIDAdd(append([]byte(nil), in.PreviousTxID()...))
 		model.Inputs = append(model.Inputs, cp)
 	}
-	if s.requote > 0 {
+	if s.requote == 3 {
+		// the quote is saved and restored into itself (same rates): nothing may change
+		if b, err := fq.MarshalJSON(); err == nil {
+			if err := fq.UnmarshalJSON(b); err != nil {
+				panic("harness: the quote's own document was rejected: " + err.Error())
+			}
+			c.Count("probe.quote_round_tripped_into_itself", 1)
+		}
+	} else if s.requote > 0 {
 		// the long-lived quote receives new rates between the two calls, by one of its update routes
 		rates = [4]int{s.stdSat2, s.stdBytes2, s.dataSat2, s.dataBytes2}
 		std := &bt.Fee{FeeType: bt.FeeTypeStandard, MiningFee: bt.FeeUnit{Satoshis: rates[0], Bytes: rates[1]}, RelayFee: bt.FeeUnit{Satoshis: rates[0], Bytes: rates[1]}}
